@@ -63,6 +63,8 @@ type Task struct {
 	goid    uint64
 	started bool
 	lastFaulted bool
+	// FaultSteps lists the scheduler steps at which a fault was delivered to this task.
+	FaultSteps []int
 }
 
 // Request is a parked seam call.
@@ -245,6 +247,17 @@ func (s *Sim) curTask(p *Proc) *Task {
 	s.byGoid[id] = t
 	t.goid = id
 	return t
+}
+
+// CurrentTaskID returns the ID of the task the calling goroutine runs as (0: none).
+func (s *Sim) CurrentTaskID() int {
+	id := verifGoID()
+	s.mu.Lock()
+	defer s.mu.Unlock()
+	if t, ok := s.byGoid[id]; ok {
+		return t.ID
+	}
+	return 0
 }
 
 // Exit ends the calling goroutine (used by seams after a crash-after effect).
@@ -470,6 +483,7 @@ func (s *Sim) decide(r *Request) Outcome {
 			for _, o := range r.Menu {
 				if o == s.Cfg.SingleKind {
 					s.Faults[o.String()]++
+					r.Task.FaultSteps = append(r.Task.FaultSteps, s.Step)
 					return o
 				}
 			}
@@ -487,6 +501,7 @@ func (s *Sim) decide(r *Request) Outcome {
 	o := menu[b%len(menu)]
 	s.Faults[o.String()]++
 	r.Task.lastFaulted = true
+	r.Task.FaultSteps = append(r.Task.FaultSteps, s.Step)
 	if burst {
 		s.Probes["burst-fault"]++
 	}
